@@ -197,9 +197,11 @@ def h_accumulate(shape_lead, shape_time):
 def h_ens2prob(T, P, M):
     def fn(S):
         src, meta = make_src(S, T, 1, P, ens=M)
-        thr = [1.0, 2.5]
+        # thresholds in increasing or in another order on the command line: each cdf column belongs to the
+        # threshold written at the same position
+        thr, rarg = [([1.0, 2.5], "1,2.5"), ([2.5, 1.0], "2.5,1")][S.choose("threshold-order", 2)]
         qs = [0.0, 0.5, 0.75, 1.0]
-        out, code = run_script(S, "ens2prob", ["ens2prob", "in.txt", "out.nc", "-r", "1,2.5", "-q", "0,0.5,0.75,1", "-p"], src)
+        out, code = run_script(S, "ens2prob", ["ens2prob", "in.txt", "out.nc", "-r", rarg, "-q", "0,0.5,0.75,1", "-p"], src)
         S.prove("completes", code is None and out.closed)
         if code is not None:
             return
@@ -216,7 +218,8 @@ def h_ens2prob(T, P, M):
                 c = [cdf[t, 0, p, i] for i in range(len(thr))]
                 S.observe("cdf", c)
                 S.prove("cdf-in-unit-interval", S.all(S.and_(v >= 0, v <= 1) for v in c), twin=c[0] > 1)
-                S.prove("cdf-never-decreases-with-threshold", c[0] <= c[1], twin=c[0] > c[1])
+                lo_i, hi_i = (0, 1) if thr[0] < thr[1] else (1, 0)
+                S.prove("cdf-never-decreases-with-threshold", c[lo_i] <= c[hi_i], twin=c[lo_i] > c[hi_i])
                 S.prove("cdf=fraction-of-members-below", S.all(S.same(c[i], S.div(S.count(v < thr[i] for v in mem), M)) for i in range(len(thr))))
                 q = [x[t, 0, p, i] for i in range(len(qs))]
                 S.observe("x", q)
